@@ -186,6 +186,43 @@ def key_fields(ctx, repo, scope=("varLib/instancer/", "subset/", "varLib/feature
     ctx.info.setdefault("key_sites", {})[rule] = n
 
 
+
+# ---------------------------------------------------------------------------
+# built-in positive examples for lints whose expected count on a healthy tree is zero
+# ---------------------------------------------------------------------------
+class _OneModuleRepo:
+    def __init__(self, src):
+        from ..core import Module
+
+        self._m = Module(None, "_selfcheck.py", "fontTools._selfcheck", src)
+
+    def rels(self):
+        return ["_selfcheck.py"]
+
+    def mod(self, rel):
+        return self._m
+
+    def has(self, rel):
+        return rel == "_selfcheck.py"
+
+
+_POSITIVE = {
+    "LOST-UPD": "def f(o):\n    lst = o.items\n    lst = sorted(lst)\n",
+    "NUM-TRUTH": "def f(a):\n    y = a.get('y')\n    if y is not None:\n        y = float(y)\n    if y:\n        return y\n",
+    "LEN-1": "def f(xs):\n    for i in range(len(xs) - 1):\n        print(xs[i])\n",
+    "LOOP-LEAK": "def f(fds, gs):\n    for fd in fds:\n        best = fd.w\n    for g in gs:\n        g.w = best\n",
+}
+
+
+def _selfcheck(ctx, rule, fn):
+    from ..report import Ctx
+
+    sub = Ctx("SELF")
+    fn(sub, _OneModuleRepo(_POSITIVE[rule]), scope=("",), rule=rule, _self=True)
+    fired = any(not o.ok for o in sub.obs)
+    ctx.ob(rule, "<built-in example>", "the detector reports the built-in positive example", fired, "" if fired else "the lint no longer recognises its own pattern: a pass on the tree would be vacuous")
+
+
 # ---------------------------------------------------------------------------
 # LOST-UPDATE: `x = f(x)` whose result is never read (an in-place update replaced by a rebinding)
 # ---------------------------------------------------------------------------
@@ -215,10 +252,12 @@ def _header_parts(sn):
     return [sn]
 
 
-def lost_update(ctx, repo, scope=("",), rule="LOST-UPD"):
+def lost_update(ctx, repo, scope=("",), rule="LOST-UPD", _self=False):
     from ..cfg import CFG
 
     ctx.rule(rule, "a local rebinding computed from the variable's own value (x = sorted(x), x = x[...], x = f(x)) is read afterwards; a dead one means an in-place update of shared data was replaced by a discarded copy", floor=1)
+    if not _self:
+        _selfcheck(ctx, rule, lost_update)
     seen_audit = set()
     for rel in sorted(repo.rels()):
         if not rel.startswith(tuple(scope)):
@@ -320,3 +359,138 @@ def save_restore(ctx, repo, scope=("",), rule="SAVE-REST"):
                 reassigned = []
                 ok = not early and not reassigned
                 ctx.ob(rule, f"{rel}:{q}", f"{norm(sv)} ... {norm(st)}", ok, "" if ok else (f"`{norm(early[0])}` overwrites the field before it is saved: the restore writes back the temporary value" if early else f"saved variable reassigned by `{norm(reassigned[0])}`"))
+
+
+# ---------------------------------------------------------------------------
+# NUM-TRUTH: optional numbers are tested with `is None`, not by truthiness
+# ---------------------------------------------------------------------------
+def num_truth(ctx, repo, scope=("",), rule="NUM-TRUTH", _self=False):
+    ctx.rule(rule, "a variable that holds a parsed number (x = float(..)/int(..)) and is elsewhere in the same function compared with None is never tested by truthiness: 0 is a value, not 'absent'", floor=1)
+    if not _self:
+        _selfcheck(ctx, rule, num_truth)
+    CONV = {"float", "int", "otRound", "round", "safeEval", "str2fl", "strToFixedToFloat"}
+    for rel in sorted(repo.rels()):
+        if not rel.startswith(tuple(scope)):
+            continue
+        mod = repo.mod(rel)
+        total = 0
+        bad = []
+        for q, f in sorted(mod.funcs.items()):
+            nonetest, numeric, truth = set(), set(), []
+            for n in walk_no_nested(f.node):
+                if isinstance(n, ast.Compare) and len(n.ops) == 1 and isinstance(n.ops[0], (ast.Is, ast.IsNot)) and isinstance(n.comparators[0], ast.Constant) and n.comparators[0].value is None and isinstance(n.left, ast.Name):
+                    nonetest.add(n.left.id)
+                elif isinstance(n, (ast.If, ast.While, ast.IfExp)):
+                    ts = n.test.values if isinstance(n.test, ast.BoolOp) else [n.test]
+                    for x in ts:
+                        if isinstance(x, ast.UnaryOp) and isinstance(x.op, ast.Not):
+                            x = x.operand
+                        if isinstance(x, ast.Name):
+                            truth.append((x.id, n))
+                elif isinstance(n, ast.Assign) and isinstance(n.value, ast.Call) and (call_name(n.value) or "").split(".")[-1] in CONV:
+                    for t in n.targets:
+                        if isinstance(t, ast.Name):
+                            numeric.add(t.id)
+            opt = nonetest & numeric
+            total += len(opt)
+            for v, n in truth:
+                if v in opt:
+                    bad.append(f"{q}: `{norm(n.test)[:50]}` tests `{v}` by truthiness")
+        if total:
+            ctx.ob(rule, f"{rel}:<module>", f"{total} optional numeric variables: none truth-tested", not bad, "; ".join(bad[:2]))
+
+
+# ---------------------------------------------------------------------------
+# LEN-1: loops that stop one short of a sequence they only index with the loop variable
+# ---------------------------------------------------------------------------
+LEN1_AUDIT = {
+    ("ttLib/tables/_c_m_a_p.py", "cmap_format_4.compile", "endCode"): "the last segment is the mandatory 0xFFFF terminator, handled after the loop",
+    ("ttLib/tables/_c_m_a_p.py", "cmap_format_4.decompile", "startCode"): "the last segment is the 0xFFFF terminator and maps nothing",
+    ("cffLib/transforms.py", "_DehintingT2Decompiler.execute", "charString.program"): "the last token is the operator being executed; only the operands before it are scanned",
+}
+
+
+def len_minus_one(ctx, repo, scope=("",), rule="LEN-1", _self=False):
+    ctx.rule(rule, "a loop `for i in range(len(X) - 1)` whose body reads X only as X[i] skips the last element; each such loop is an audited case (otherwise the last record is silently dropped)", floor=1)
+    if not _self:
+        _selfcheck(ctx, rule, len_minus_one)
+    for rel in sorted(repo.rels()):
+        if not rel.startswith(tuple(scope)):
+            continue
+        mod = repo.mod(rel)
+        nloops = 0
+        bad = []
+        for q, f in sorted(mod.funcs.items()):
+            for n in walk_no_nested(f.node):
+                if not (isinstance(n, ast.For) and isinstance(n.iter, ast.Call) and norm(n.iter.func) == "range" and isinstance(n.target, ast.Name)):
+                    continue
+                nloops += 1
+                a = n.iter.args[-1] if len(n.iter.args) <= 2 else n.iter.args[1]
+                if not (isinstance(a, ast.BinOp) and isinstance(a.op, ast.Sub) and isinstance(a.right, ast.Constant) and a.right.value == 1 and isinstance(a.left, ast.Call) and norm(a.left.func) == "len" and a.left.args):
+                    continue
+                X = norm(a.left.args[0])
+                idx = [norm(s.slice) for b in n.body for s in ast.walk(b) if isinstance(s, ast.Subscript) and norm(s.value) == X]
+                if idx and all(x == n.target.id for x in idx):
+                    key = (rel, q, X)
+                    if key in LEN1_AUDIT:
+                        ctx.ob(rule, f"{rel}:{q}", f"range(len({X}) - 1) (audited: {LEN1_AUDIT[key]})", True)
+                    else:
+                        bad.append(f"{q}: range(len({X}) - 1) indexes only {X}[{n.target.id}]")
+        if nloops:
+            ctx.ob(rule, f"{rel}:<module>", f"{nloops} range() loops: none stops one short of the sequence it indexes", not bad, "; ".join(bad[:2]))
+
+
+# ---------------------------------------------------------------------------
+# LOOP-LEAK: a value bound only inside one loop is read inside a later loop
+# ---------------------------------------------------------------------------
+LOOP_LEAK_AUDIT = {
+    ("ttLib/tables/D_S_I_G_.py", "table_D_S_I_G_.decompile", "n"): "stale record number in an assertion message only",
+}
+
+
+def loop_leak(ctx, repo, scope=("",), rule="LOOP-LEAK", _self=False):
+    ctx.rule(rule, "a variable whose only bindings are inside one for-loop is not read inside a later sibling loop (there it holds whatever the last iteration of the earlier loop left, e.g. the last font dict's value for every glyph)", floor=1)
+    if not _self:
+        _selfcheck(ctx, rule, loop_leak)
+    for rel in sorted(repo.rels()):
+        if not rel.startswith(tuple(scope)):
+            continue
+        mod = repo.mod(rel)
+        nl = 0
+        bad = []
+        for q, f in sorted(mod.funcs.items()):
+            fn = f.node
+            a = fn.args
+            params = {x.arg for x in a.args + a.kwonlyargs + a.posonlyargs} | ({a.vararg.arg} if a.vararg else set()) | ({a.kwarg.arg} if a.kwarg else set())
+            loops = [l for l in walk_no_nested(fn) if isinstance(l, ast.For)]
+            if len(loops) < 2:
+                continue
+            allstores = {}
+            for x in ast.walk(fn):
+                if isinstance(x, ast.Name) and isinstance(x.ctx, ast.Store):
+                    allstores.setdefault(x.id, []).append(x)
+            for l in loops:
+                nl += 1
+                inner = {id(x) for x in ast.walk(l)}
+                only = {name for name, ss in allstores.items() if all(id(s) in inner for s in ss)} - params
+                if not only:
+                    continue
+                p = parent(l)
+                for fld in ("body", "orelse", "finalbody"):
+                    b = getattr(p, fld, None)
+                    if isinstance(b, list) and l in b:
+                        for st in b[b.index(l) + 1 :]:
+                            if isinstance(st, (ast.For, ast.While)):
+                                for x in ast.walk(st):
+                                    if isinstance(x, ast.Name) and isinstance(x.ctx, ast.Load) and x.id in only:
+                                        only = only - {x.id}
+                                        key = (rel, q, x.id)
+                                        if key in LOOP_LEAK_AUDIT:
+                                            ctx.ob(rule, f"{rel}:{q}", f"`{x.id}` (audited: {LOOP_LEAK_AUDIT[key]})", True)
+                                        else:
+                                            bad.append(f"{q}: `{x.id}` is bound only in the loop over `{norm(l.iter)[:40]}` but read in the later loop over `{norm(getattr(st, 'iter', getattr(st, 'test', None)))[:40]}`")
+        if nl:
+            ctx.ob(rule, f"{rel}:<module>", f"{nl} loops in multi-loop functions: no value leaks from one loop into a later one", not bad, "; ".join(bad[:2]))
+
+
+GENERIC = [lost_update, num_truth, len_minus_one, loop_leak]
